@@ -168,6 +168,64 @@ def container_name(a, t, func):
     return 'X'
 
 
+def built_size(a, cterm, func):
+    """number of elements of a *local* container as a term, when it is only ever grown by exactly one
+    unconditional push_back per iteration of canonical loops over [0, B) with one and the same B"""
+    T = a.T
+    n = T.node(cterm)
+    for _ in range(20):
+        if n[0] in ('ix', 'upd', 'agg', 'cat'):
+            cterm = n[1]
+            n = T.node(cterm)
+        else:
+            break
+    vid = None
+    if n[0] == 'phi' and isinstance(n[2], tuple) and n[2][0] == 'v':
+        vid = n[2][1]
+    elif n[0] == 'local':
+        vid = n[2]
+    elif n[0] == 'fresh':
+        sn = T.node(n[1])
+        lord, lname = local_ordinals(func)
+        if sn[0] == 'sym' and sn[1] in lname:
+            vid = lname[sn[1]]
+    if vid is None:
+        return None
+    cache = a.__dict__.setdefault('_built_size', {})
+    if vid in cache:
+        return cache[vid]
+    cache[vid] = None
+    bounds = set()
+    for nid, ev in a.all_events('mcall'):
+        short = ev[1].split('::')[-1]
+        loc = ev[6] if len(ev) > 6 else None
+        if not (isinstance(loc, tuple) and loc[0] == 'v' and loc[1] == vid):
+            continue
+        if short in ('size', 'length', 'empty', 'begin', 'end', 'clear', 'operator[]', 'at', 'front', 'back', 'data', 'reserve', 'cbegin', 'cend'):
+            continue
+        if short != 'push_back':
+            return None          # resized / erased / inserted elsewhere: size not derived
+        loops = [h for h, b in a.loop_nodes.items() if nid in b]
+        if len(loops) != 1:
+            return None
+        lb = a.loop_bound.get(loops[0])
+        if not lb or lb[1] != '<' or lb[3] != 1 or not T.is_int(lb[2], 0):
+            return None
+        # unconditional within the iteration: nothing but the loop condition guards it
+        st = a.instate[nid]
+        hd = [x for x in a.cfg.rpo if x.id == loops[0]][0]
+        base = a.instate[hd.id].facts if hd.id in a.instate else frozenset()
+        extra = [f for f in st.facts if f not in base and T.op(f) != 'all']
+        if len(extra) > 1:
+            return None
+        bounds.add(lb[0])
+    if len(bounds) == 1:
+        b = bounds.pop()
+        if not a.ix_loops(b):
+            cache[vid] = b
+    return cache[vid]
+
+
 def coverage(a, tags, func):
     """which index range the quantified fact was established for: per loop (op, init, bound)"""
     T = a.T
@@ -179,6 +237,13 @@ def coverage(a, tags, func):
             continue
         bound, op, init, step = b
         bn = T.node(bound)
+        if bn[0] == 'mc' and bn[1].split('::')[-1] in ('size', 'length'):
+            built = built_size(a, bn[2], func)
+            if built is not None:
+                # a local vector filled by one push_back per iteration of a loop over [0, B) has B
+                # elements: iterating over it is iterating over [0, B)
+                bound = built
+                bn = T.node(bound)
         if bn[0] == 'mc' and bn[1].split('::')[-1] in ('size', 'length'):
             bd = 'size(%s)' % container_name(a, bn[2], func)
         elif bn[0] == 'int':
